@@ -300,6 +300,22 @@ class Crate:
             c = [b for b in self.bodies if b.path.endswith(path_suffix)]
         if len(c) == 1:
             return c[0]
+        if not c:
+            # generic / lifetime parameter names are not part of a function's identity
+            # (`impl<'a> Writer<'a>` vs `impl Writer<'_>`): compare with `::<...>` segments removed
+            import re as _re
+
+            def strip(p):
+                prev = None
+                while prev != p:
+                    prev = p
+                    p = _re.sub(r"::<[^<>]*>", "", p)
+                return p
+
+            want = strip(path_suffix)
+            c = [b for b in self.bodies if not b.is_closure and (strip(b.path) == want or strip(b.path).endswith("::" + want))]
+            if len(c) == 1:
+                return c[0]
         return None
 
     def bodies_matching(self, pred):
